@@ -94,6 +94,9 @@ func TestSeq(t *testing.T) {
 		h := &History{ID: fmt.Sprintf("g%d-%d", seed, k), Cfg: g.Config(), Mode: mode}
 		if mode == "service" {
 			h.ID = fmt.Sprintf("s%d-%d", seed, k)
+		} else if f, cls := g.InitFile(h.Cfg); f != nil {
+			// boot on an adversarial state file (direct mode only)
+			h.ID, h.InitFile, h.InitClass = fmt.Sprintf("f%d-%d", seed, k), f, cls
 		}
 		fmt.Fprintf(pf, "S %s\n", h.ID)
 		synctest.Test(t, func(t *testing.T) {
